@@ -3,3 +3,4 @@ pub mod grammar;
 pub mod parse;
 pub mod sentences;
 pub mod yacc;
+pub mod worker;
